@@ -10,7 +10,15 @@ import operator
 from . import absmap as am
 
 
+class HarnessGap(BaseException):
+    """the code under test used a facility the harness does not script: a machinery failure (exit 2),
+    never an observation about the code (BaseException: no `except Exception` of a driver records it)"""
+
+
 class TapeModule:
+    def __getattr__(self, name):
+        raise HarnessGap("d42.generation._random used random.%s, which the scripted module does not provide" % name)
+
     def __init__(self, tape):
         self.tape = list(tape)
         self.pos = 0
@@ -72,6 +80,9 @@ def installed(tape):
     import sys
     import d42.generation  # noqa
     R = sys.modules["d42.generation._random"]
+    cur = R.__dict__.get("random")
+    if cur is None or not (isinstance(cur, TapeModule) or getattr(cur, "__name__", "") == "random"):
+        raise HarnessGap("d42.generation._random no longer binds the random module under the name `random`")
     real = R.random
     fake = TapeModule(tape)
     R.random = fake
